@@ -758,3 +758,75 @@ def check_straight(prog, report, which=('bilform', 'residual')):
                 'straightness')
         if not rw.hits:
             report.note('residual has no closed-form path any more')
+
+
+# --------------------------------------------------------------------------
+# R-assert: internal assertions of the splitters cannot fire on mesh pairs
+# --------------------------------------------------------------------------
+class AssertWalker(Walker):
+    split_paths = True
+
+    def __init__(self):
+        super().__init__()
+        self.asserts = []
+
+    def on_stmt(self, st, state):
+        if isinstance(st, ast.Assert) and len(self.func_stack) == 1:
+            self.asserts.append((st, state.copy()))
+
+
+def check_asserts(prog, report):
+    """Under the interval axioms a mesh supplies (both intervals inside
+    [0, L], laminar = nested or interior-disjoint, no element covers the
+    whole closed curve, lengths above the numeric floor) every `assert` in
+    the body of the two splitters is entailed by the path facts: the
+    splitter cannot abort on a pair of mesh elements."""
+    from .absint import cond_dnf, covers, fact_key
+    for file, q, names, Lname in (
+            (SL, 'SingleLayerOperator.__integrate', None, 'self.gamma_len'),
+            (SLX, 'spacetime_integrated_kernel', None, None)):
+        fi = prog.func(file, q)
+        p = fi.params
+        if q.endswith('__integrate'):
+            a, b, c, d = p[2:]
+        else:
+            a, b, c, d = p[4:]
+        seeds = ['%s < %s' % (a, b), '%s < %s' % (c, d)]
+        if Lname:
+            seeds += ['0 <= %s' % a, '0 <= %s' % c, '%s <= %s' % (b, Lname),
+                      '%s <= %s' % (d, Lname),
+                      '(%s - %s) < %s' % (b, a, Lname),
+                      '(%s - %s) < %s' % (d, c, Lname),
+                      '%s - %s > 1e-7' % (b, a), '%s - %s > 1e-7' % (d, c)]
+        lam = ('({b} <= {c}) or ({d} <= {a}) or ({a} <= {c} and {d} <= {b}) '
+               'or ({c} <= {a} and {b} <= {d})').format(a=a, b=b, c=c, d=d)
+        st0 = State()
+        for s_ in seeds + [lam]:
+            st0.assume(ast.parse(s_, mode='eval').body)
+        w = AssertWalker()
+        w.walk_function(fi.node, st0)
+        seen = {}
+        first_if = min([s_.lineno for s_ in fi.node.body
+                        if isinstance(s_, ast.If)] or [10**9])
+        for st, state in w.asserts:
+            t = text(st.test)
+            if st.lineno < first_if and st in fi.node.body:
+                continue  # declared preconditions (R-precond / R-binding)
+            if 'isclose' in t or '1e-' in t:
+                continue  # numeric tolerance asserts are not decided
+            dnf = cond_dnf(st.test, state.env)
+            ok = all(covers(case, dnf) for case in state.cases)
+            key = id(st)
+            seen[key] = (seen.get(key, (True, st))[0] and ok, st)
+        for ok, st in seen.values():
+            report.check(
+                ok, 'R-assert', '%s `assert %s`' % (q.split('.')[-1],
+                                                    text(st.test)[:40]),
+                fi.where(st),
+                'the assertion is entailed by the path facts for every '
+                'pair of laminar intervals inside [0, L] (mesh elements): '
+                'the splitter cannot abort here',
+                construct='%s: assert %s' % (q.split('.')[-1],
+                                             text(st.test)[:40]))
+        if not seen:
+            raise AnalysisError('%s: no assertions found' % fi.where())
